@@ -48,10 +48,12 @@ struct Forms {
     verif::Exact<char> cz;         // C string form: n bytes + NUL (the library sees it cut at the first NUL)
     std::string cview;             // what the C string form can see
     const char *plp, *czp;
+    const char8_t *pl8, *cz8;      // the same two blocks seen through the char8_t overloads
     Forms(const SearchCase &k)
         : hx(k.hay), hs(ST::string::from_validated(hx.data(), hx.size())), ns(ST::string::from_validated(k.needle.data(), k.needle.size())),
           pl(k.needle, false), cz(k.needle, true), cview(ref::c_view(k.needle)),
-          plp(k.null_needle ? nullptr : pl.data()), czp(k.null_needle ? nullptr : cz.data()) {}
+          plp(k.null_needle ? nullptr : pl.data()), czp(k.null_needle ? nullptr : cz.data()),
+          pl8(reinterpret_cast<const char8_t *>(plp)), cz8(reinterpret_cast<const char8_t *>(czp)) {}
 };
 
 std::string mismatch(const char *what, ll got, ll want, bool ci) {
@@ -100,6 +102,21 @@ std::string check_mode(const SearchCase &k, const Forms &f, bool ci) {
     WANT(hs.starts_with(f.czp, cs), ref::starts_with(H, C, ci), "starts_with(const char*)");
     WANT(hs.ends_with(f.czp, cs), ref::ends_with(H, C, ci), "ends_with(const char*)");
 
+    // char8_t forms: (pointer,length) sees the full bytes - well-formed UTF-8 or not -, the C string form the bytes before the first NUL;
+    // each must give what its const char* sibling gives
+    WANT(hs.find(st, f.pl8, n, cs), mf, "find(start, const char8_t*, len)");
+    WANT(hs.find(f.pl8, n, cs), mf0, "find(const char8_t*, len)");
+    WANT(hs.find_last(lim, f.pl8, n, cs), ml, "find_last(limit, const char8_t*, len)");
+    WANT(hs.find_last(f.pl8, n, cs), mla, "find_last(const char8_t*, len)");
+    WANT(hs.contains(f.pl8, n, cs), mf0 >= 0, "contains(const char8_t*, len)");
+    WANT(hs.find(st, f.cz8, cs), cf, "find(start, const char8_t*)");
+    WANT(hs.find(f.cz8, cs), cf0, "find(const char8_t*)");
+    WANT(hs.find_last(lim, f.cz8, cs), cl, "find_last(limit, const char8_t*)");
+    WANT(hs.find_last(f.cz8, cs), cla, "find_last(const char8_t*)");
+    WANT(hs.contains(f.cz8, cs), cf0 >= 0, "contains(const char8_t*)");
+    WANT(hs.starts_with(f.cz8, cs), ref::starts_with(H, C, ci), "starts_with(const char8_t*)");
+    WANT(hs.ends_with(f.cz8, cs), ref::ends_with(H, C, ci), "ends_with(const char8_t*)");
+
     // char form (any byte, NUL included: a one-byte needle)
     if (n == 1) {
         const char ch = N[0];
@@ -124,9 +141,122 @@ std::string check_mode(const SearchCase &k, const Forms &f, bool ci) {
         if (n == 1) {
             WANT(hs.find(st, N[0]), mf, "find(start, char) default mode");
             WANT(hs.find_last(lim, N[0]), ml, "find_last(limit, char) default mode");
+            WANT(hs.find(N[0]), mf0, "find(char) default mode");
+            WANT(hs.find_last(N[0]), mla, "find_last(char) default mode");
+            WANT(hs.contains(N[0]), mf0 >= 0, "contains(char) default mode");
         }
+        WANT(hs.find(f.ns), mf0, "find(ST::string) default mode");
+        WANT(hs.find_last(f.ns), mla, "find_last(ST::string) default mode");
+        WANT(hs.find(f.plp, n), mf0, "find(ptr, len) default mode");
+        WANT(hs.find_last(f.plp, n), mla, "find_last(ptr, len) default mode");
+        WANT(hs.contains(f.plp, n), mf0 >= 0, "contains(ptr, len) default mode");
+        WANT(hs.find(f.czp), cf0, "find(const char*) default mode");
+        WANT(hs.find_last(f.czp), cla, "find_last(const char*) default mode");
+        WANT(hs.contains(f.czp), cf0 >= 0, "contains(const char*) default mode");
+        WANT(hs.starts_with(f.czp), ref::starts_with(H, C, false), "starts_with(const char*) default mode");
+        WANT(hs.ends_with(f.ns), ref::ends_with(H, N, false), "ends_with(ST::string) default mode");
+        WANT(hs.find(st, f.pl8, n), mf, "find(start, const char8_t*, len) default mode");
+        WANT(hs.find(f.pl8, n), mf0, "find(const char8_t*, len) default mode");
+        WANT(hs.find_last(lim, f.pl8, n), ml, "find_last(limit, const char8_t*, len) default mode");
+        WANT(hs.find_last(f.pl8, n), mla, "find_last(const char8_t*, len) default mode");
+        WANT(hs.contains(f.pl8, n), mf0 >= 0, "contains(const char8_t*, len) default mode");
+        WANT(hs.find(st, f.cz8), cf, "find(start, const char8_t*) default mode");
+        WANT(hs.find(f.cz8), cf0, "find(const char8_t*) default mode");
+        WANT(hs.find_last(lim, f.cz8), cl, "find_last(limit, const char8_t*) default mode");
+        WANT(hs.find_last(f.cz8), cla, "find_last(const char8_t*) default mode");
+        WANT(hs.contains(f.cz8), cf0 >= 0, "contains(const char8_t*) default mode");
+        WANT(hs.starts_with(f.cz8), ref::starts_with(H, C, false), "starts_with(const char8_t*) default mode");
+        WANT(hs.ends_with(f.cz8), ref::ends_with(H, C, false), "ends_with(const char8_t*) default mode");
     }
     return std::string();
+}
+
+// ---- long haystacks: the model is the list of all occurrences (one naive pass per needle view and case mode) ---------------
+struct Occ {
+    std::vector<size_t> n[2], c[2];     // [case mode]: full needle, needle as a C string sees it
+    bool c_same;                        // the needle has no NUL: both views coincide
+    Occ(const SearchCase &k, const std::string &cview) : c_same(cview.size() == k.needle.size()) {
+        for (int m = 0; m < 2; m++) { n[m] = ref::all_occurrences(k.hay, k.needle, m != 0); if (!c_same) c[m] = ref::all_occurrences(k.hay, cview, m != 0); }
+    }
+    const std::vector<size_t> &full(bool ci) const { return n[ci]; }
+    const std::vector<size_t> &cstr(bool ci) const { return c_same ? n[ci] : c[ci]; }
+};
+
+std::string check_long_mode(const SearchCase &k, const Forms &f, const Occ &o, bool ci) {
+    const std::string &H = k.hay, &N = k.needle, &C = f.cview;
+    const ST::case_sensitivity_t cs = ci ? ST::case_insensitive : ST::case_sensitive;
+    const size_t st = k.start, lim = k.limit, n = N.size(), hz = H.size();
+    const ST::string &hs = f.hs;
+    const ll mf = ref::find_in(o.full(ci), hz, st), mf0 = ref::find_in(o.full(ci), hz, 0);
+    const ll ml = ref::find_last_in(o.full(ci), hz, n, lim), mla = ref::find_last_in(o.full(ci), hz, n, (size_t)-1);
+    const ll cf = ref::find_in(o.cstr(ci), hz, st), cf0 = ref::find_in(o.cstr(ci), hz, 0);
+    const ll cl = ref::find_last_in(o.cstr(ci), hz, C.size(), lim), cla = ref::find_last_in(o.cstr(ci), hz, C.size(), (size_t)-1);
+
+    WANT(hs.find(st, f.ns, cs), mf, "find(start, ST::string)");
+    WANT(hs.find(f.ns, cs), mf0, "find(ST::string)");
+    WANT(hs.find_last(lim, f.ns, cs), ml, "find_last(limit, ST::string)");
+    WANT(hs.find_last(f.ns, cs), mla, "find_last(ST::string)");
+    WANT(hs.contains(f.ns, cs), mf0 >= 0, "contains(ST::string)");
+    WANT(hs.starts_with(f.ns, cs), ref::starts_with(H, N, ci), "starts_with(ST::string)");
+    WANT(hs.ends_with(f.ns, cs), ref::ends_with(H, N, ci), "ends_with(ST::string)");
+    WANT(hs.find(st, f.plp, n, cs), mf, "find(start, ptr, len)");
+    WANT(hs.find(f.plp, n, cs), mf0, "find(ptr, len)");
+    WANT(hs.find_last(lim, f.plp, n, cs), ml, "find_last(limit, ptr, len)");
+    WANT(hs.find_last(f.plp, n, cs), mla, "find_last(ptr, len)");
+    WANT(hs.contains(f.plp, n, cs), mf0 >= 0, "contains(ptr, len)");
+    WANT(hs.find(st, f.pl8, n, cs), mf, "find(start, const char8_t*, len)");
+    WANT(hs.find_last(lim, f.pl8, n, cs), ml, "find_last(limit, const char8_t*, len)");
+    WANT(hs.contains(f.pl8, n, cs), mf0 >= 0, "contains(const char8_t*, len)");
+    WANT(hs.find(st, f.czp, cs), cf, "find(start, const char*)");
+    WANT(hs.find(f.czp, cs), cf0, "find(const char*)");
+    WANT(hs.find_last(lim, f.czp, cs), cl, "find_last(limit, const char*)");
+    WANT(hs.find_last(f.czp, cs), cla, "find_last(const char*)");
+    WANT(hs.contains(f.czp, cs), cf0 >= 0, "contains(const char*)");
+    WANT(hs.starts_with(f.czp, cs), ref::starts_with(H, C, ci), "starts_with(const char*)");
+    WANT(hs.ends_with(f.czp, cs), ref::ends_with(H, C, ci), "ends_with(const char*)");
+    WANT(hs.find(st, f.cz8, cs), cf, "find(start, const char8_t*)");
+    WANT(hs.find_last(lim, f.cz8, cs), cl, "find_last(limit, const char8_t*)");
+    WANT(hs.starts_with(f.cz8, cs), ref::starts_with(H, C, ci), "starts_with(const char8_t*)");
+    WANT(hs.ends_with(f.cz8, cs), ref::ends_with(H, C, ci), "ends_with(const char8_t*)");
+    if (n == 1) {
+        WANT(hs.find(st, N[0], cs), mf, "find(start, char)");
+        WANT(hs.find_last(lim, N[0], cs), ml, "find_last(limit, char)");
+        WANT(hs.contains(N[0], cs), mf0 >= 0, "contains(char)");
+    }
+    if (!ci) {
+        WANT(hs.find(st, f.ns), mf, "find(start, ST::string) default mode");
+        WANT(hs.find_last(lim, f.ns), ml, "find_last(limit, ST::string) default mode");
+        WANT(hs.contains(f.ns), mf0 >= 0, "contains(ST::string) default mode");
+    }
+    return std::string();
+}
+// only the start- and limit-dependent calls (sweeps over every offset of one haystack/needle pair)
+std::string check_long_positions(const SearchCase &k, const Forms &f, const Occ &o, bool ci) {
+    const ST::case_sensitivity_t cs = ci ? ST::case_insensitive : ST::case_sensitive;
+    const size_t st = k.start, lim = k.limit, n = k.needle.size(), hz = k.hay.size();
+    const ST::string &hs = f.hs;
+    const ll mf = ref::find_in(o.full(ci), hz, st), ml = ref::find_last_in(o.full(ci), hz, n, lim);
+    const ll cf = ref::find_in(o.cstr(ci), hz, st), cl = ref::find_last_in(o.cstr(ci), hz, f.cview.size(), lim);
+    WANT(hs.find(st, f.ns, cs), mf, "find(start, ST::string)");
+    WANT(hs.find_last(lim, f.ns, cs), ml, "find_last(limit, ST::string)");
+    WANT(hs.find(st, f.plp, n, cs), mf, "find(start, ptr, len)");
+    WANT(hs.find_last(lim, f.plp, n, cs), ml, "find_last(limit, ptr, len)");
+    WANT(hs.find(st, f.pl8, n, cs), mf, "find(start, const char8_t*, len)");
+    WANT(hs.find_last(lim, f.pl8, n, cs), ml, "find_last(limit, const char8_t*, len)");
+    WANT(hs.find(st, f.czp, cs), cf, "find(start, const char*)");
+    WANT(hs.find_last(lim, f.czp, cs), cl, "find_last(limit, const char*)");
+    WANT(hs.find(st, f.cz8, cs), cf, "find(start, const char8_t*)");
+    WANT(hs.find_last(lim, f.cz8, cs), cl, "find_last(limit, const char8_t*)");
+    return std::string();
+}
+std::string check_long_case(const SearchCase &k, const Forms &f, const Occ &o, bool positions_only = false) {
+    try {
+        std::string why = positions_only ? check_long_positions(k, f, o, false) : check_long_mode(k, f, o, false);
+        if (why.empty()) why = positions_only ? check_long_positions(k, f, o, true) : check_long_mode(k, f, o, true);
+        return why;
+    } catch (...) {
+        return "unexpected " + verif::describe_current_exception();
+    }
 }
 
 std::string check_case(const SearchCase &k, const Forms &f) {
@@ -181,6 +311,170 @@ std::vector<uint8_t> encode(const SearchCase &k) {
     v.insert(v.end(), k.hay.begin(), k.hay.end());
     v.insert(v.end(), k.needle.begin(), k.needle.end());
     return v;
+}
+
+// ---- long haystacks -----------------------------------------------------------------------------------------------------------
+enum { LONG_MAX_HAY = 65536, LONG_MAX_NEEDLE = 4096 };
+static const uint32_t EDGES[] = {4096, 16384, 16386};      // block sizes whose edges an occurrence is made to straddle
+
+// directed encoding with explicit content (first byte 0xFD): 24-bit haystack length, 16-bit needle length
+std::vector<uint8_t> encode_long(const SearchCase &k) {
+    std::vector<uint8_t> v;
+    v.reserve(24 + k.hay.size() + k.needle.size());
+    const size_t hl = k.hay.size(), nl = k.needle.size();
+    v.push_back(0xFD); v.push_back((uint8_t)hl); v.push_back((uint8_t)(hl >> 8)); v.push_back((uint8_t)(hl >> 16));
+    v.push_back((uint8_t)nl); v.push_back((uint8_t)(nl >> 8)); v.push_back(k.null_needle ? 1 : 0);
+    put64(v, k.start); put64(v, k.limit);            // bytes 7..14 and 15..22
+    v.insert(v.end(), k.hay.begin(), k.hay.end());
+    v.insert(v.end(), k.needle.begin(), k.needle.end());
+    return v;
+}
+void patch_positions(std::vector<uint8_t> &v, size_t start, size_t limit) {
+    for (int i = 0; i < 8; i++) { v[7 + i] = (uint8_t)((uint64_t)start >> (8 * i)); v[15 + i] = (uint8_t)((uint64_t)limit >> (8 * i)); }
+}
+
+// the property's non-triviality rule, from the occurrence lists (the naive classifiers are quadratic on long periodic text)
+struct LongWhy : Why { bool at_end = false, limit_inside = false, limit_deep = false, edge = false; };
+LongWhy classify_long(const SearchCase &k, const Occ &o) {
+    LongWhy w;
+    const std::string &H = k.hay, &N = k.needle;
+    const size_t n = N.size(), hz = H.size();
+    if (!n) return w;
+    for (int m = 0; m < 2; m++) {
+        const bool ci = m != 0;
+        const std::vector<size_t> &oc = o.full(ci);
+        if (oc.size() >= 2) w.multi = true;
+        for (size_t i = 1; i < oc.size(); i++) if (oc[i] - oc[i - 1] < n) w.overlap = true;
+        size_t oi = 0;
+        if (n >= 2) for (size_t i = 0; i < hz && !w.false_start; i++) {
+            while (oi < oc.size() && oc[oi] < i) oi++;
+            if (ref::same(H[i], N[0], ci) && !(oi < oc.size() && oc[oi] == i)) w.false_start = true;
+        }
+        for (size_t i : oc) {
+            if (i < k.start && k.start - i < n) w.straddle_start = true;
+            if (i < k.limit && k.limit - i < n) { w.straddle_limit = w.limit_inside = true; if (k.limit - i > 1024) w.limit_deep = true; }
+            if (i + n == hz) w.at_end = true;
+            if (n >= 2) for (uint32_t B : EDGES) {
+                const size_t a = (i + n - 1) / B * B;                          // from the start: an edge inside (i, i+n)
+                if (a > i && a < i + n) w.edge = true;
+                if (hz >= i + n) { const size_t ri = hz - (i + n), ra = (ri + n - 1) / B * B; if (ra > ri && ra < ri + n) w.edge = true; }   // counted from the end
+            }
+        }
+        for (size_t q = 1; q < n && q <= hz && !w.past_end; q++) {
+            bool all = true;
+            for (size_t j = 0; j < q && all; j++) all = ref::same(H[hz - q + j], N[j], ci);
+            if (all) w.past_end = true;
+        }
+    }
+    return w;
+}
+
+std::string render_long(const SearchCase &k, const Occ &o) {
+    auto few = [](const std::vector<size_t> &v) { std::string t = "["; for (size_t i = 0; i < v.size() && i < 6; i++) { if (i) t += ","; t += verif::unum(v[i]); } if (v.size() > 6) t += ",..(" + verif::unum(v.size()) + ")"; return t + "]"; };
+    return "C07 long hay=" + verif::quoted(k.hay, 32) + "[" + verif::unum(k.hay.size()) + "] needle=" + (k.null_needle ? std::string("null") : verif::quoted(k.needle, 32)) + "[" + verif::unum(k.needle.size()) +
+           "] start=" + pos(k.start) + " limit=" + pos(k.limit) + " forms={string,ptrlen,cstr,u8 ptrlen,u8 cstr" + (k.needle.size() == 1 ? ",char}" : "}") + " occurrences " + few(o.full(false)) + "/ci " + few(o.full(true)) +
+           " -> find " + verif::num(ref::find_in(o.full(false), k.hay.size(), k.start)) + "/ci " + verif::num(ref::find_in(o.full(true), k.hay.size(), k.start)) +
+           " find_last " + verif::num(ref::find_last_in(o.full(false), k.hay.size(), k.needle.size(), k.limit)) + "/ci " + verif::num(ref::find_last_in(o.full(true), k.hay.size(), k.needle.size(), k.limit)) + " (model)";
+}
+
+// A long case from few bytes: periodic background (period 1..8), a needle that is a chunk of the background with one foreign
+// "breaker" byte (so every period-aligned position is a partial match), a foreign periodic text, or a pure chunk (dense, overlapping
+// occurrences; kept small), planted 0..3 times: exactly at the end, at the start, anywhere, straddling an edge of a 64..16386-byte
+// block counted from the start or from the END, adjacent to / overlapping the previous plant, as a near miss, case-flipped.
+void gen_long(verif::Reader &r, bool big, SearchCase &k, Case &c) {
+    static const uint8_t LB[] = {'a', 'b', 'A', 'B', 'c', 0, 0xC3, 0xA9, 0xE2, 0x82, 0xAC, 'z', 'Z', '@', '[', '`'};
+    static const uint8_t FB[] = {'x', 'Y', 'w', 'Q', 0xE2, 0x98, 0x83, '#', 'q', 'X'};
+    static const uint8_t BR[] = {'#', 'Q', 'q', 0x01, 0xE9};
+    size_t H;
+    if (big) { static const uint32_t HB[] = {49152, 16384, 16386, 32768, 32772, 40000, 20000, 49151, 16385, 12288, 12289, 45000}; H = r.chance(64) ? (size_t)r.range(8193, 49152) : (size_t)r.pick(HB); }
+    else { static const uint16_t HS[] = {64, 255, 256, 257, 1023, 1024, 1025, 2048, 4095, 4096, 4097, 8191, 8192, 100, 500, 3000}; H = r.chance(64) ? (size_t)r.range(41, 8192) : (size_t)r.pick(HS); }
+    const size_t P = 1 + r.idx(8);
+    uint8_t pat[8];
+    for (size_t i = 0; i < P; i++) pat[i] = r.pick(LB) ^ 0;
+    if (P == 1 && pat[0] == 'a' && false) {}
+    size_t nl;
+    if (big) { static const uint16_t NB[] = {2, 3, 4, 5, 8, 17, 33, 64, 257, 1025}; nl = r.chance(64) ? (size_t)r.range(2, 64) : (size_t)r.pick(NB); }
+    else { static const uint16_t NS[] = {17, 31, 32, 33, 63, 64, 65, 127, 128, 255, 256, 257, 511, 512, 1023, 1024, 1025, 1500, 2047, 2048, 3000, 2, 3, 5}; nl = r.chance(64) ? (size_t)r.range(17, 3000) : (size_t)r.pick(NS); }
+    if (nl > H) nl = H;
+    unsigned kind = (unsigned)r.idx(big ? 2 : 4);       // 0 chunk + late breaker, 1 foreign text, 2 pure chunk (dense), 3 chunk + early breaker
+    const size_t phase = r.idx(P);
+    std::string N(nl, 'a');
+    size_t bp = 0;
+    if (kind == 1) {
+        const size_t P2 = 1 + r.idx(7);
+        uint8_t fp[7];
+        for (size_t i = 0; i < P2; i++) fp[i] = r.pick(FB);
+        for (size_t i = 0; i < nl; i++) N[i] = (char)fp[i % P2];
+        if (r.chance(40)) N[r.idx(nl)] = '\0';                                   // C string forms then see a shorter needle
+    } else {
+        for (size_t i = 0; i < nl; i++) N[i] = (char)pat[(phase + i) % P];
+        if (kind == 2) { if (H > 1200) H = 1200; if (nl > 300) { nl = 300; N.resize(nl); } }
+        else {
+            const unsigned bsel = (unsigned)r.idx(4);
+            if (kind == 0) bp = bsel == 0 ? nl - 1 : bsel == 1 ? (nl >= 2 ? nl - 2 : 0) : bsel == 2 ? nl / 2 : r.idx(nl);
+            else bp = bsel < 3 ? (bsel < nl ? bsel : 0) : r.idx(nl < 16 ? nl : 16);
+            N[bp] = (char)r.pick(BR);
+            // every period-aligned position costs about bp comparisons: keep the product bounded (a resource bound, not a verdict)
+            while (H > nl + 64 && (H - nl) / P * (bp + 1) > 400000) H = nl + (H - nl) / 2;
+        }
+    }
+    std::string Hs(H, 'a');
+    for (size_t i = 0; i < H; i++) Hs[i] = (char)pat[i % P];
+    const size_t room = H - nl;                       // last position at which the needle fits
+    const unsigned np = (unsigned)r.idx(4);
+    size_t prev = 0; bool have_prev = false, edge_plant = false;
+    for (unsigned q = 0; q < np; q++) {
+        const unsigned sel = (unsigned)r.idx(8);
+        const size_t drawn = (size_t)r.range(0, room);
+        size_t at = drawn; bool near_miss = false;
+        switch (sel) {
+        case 0: at = room; break;                                                   // exactly at the end
+        case 1: at = 0; break;
+        case 2: break;
+        case 3: case 4: {                                                         // straddling (or touching) the edge of a block counted from the start / from the END
+            static const uint32_t BL[] = {4096, 16384, 16386, 1024, 256, 64};
+            const size_t B = r.pick(BL), m = 1 + r.idx(3), sft = (size_t)r.range(0, nl);
+            const size_t e = sel == 3 ? m * B : (H >= m * B ? H - m * B : H);      // the edge
+            at = e >= sft ? e - sft : 0; edge_plant = true; break; }
+        case 5: if (have_prev) { const size_t ov = (size_t)r.range(0, nl < 4 ? nl : 4); at = prev + nl - (ov < nl ? ov : 0); } break;   // adjacent to / overlapping the previous plant
+        case 6: at = room ? room - 1 : 0; break;
+        default: near_miss = true; break;
+        }
+        if (at > room) at = room;
+        std::string piece = N;
+        if (near_miss && nl) piece[r.flag() ? nl - 1 : nl / 2] ^= 0x04;            // one byte off (never a case difference)
+        else if (r.chance(48)) piece = gen::flip_case(piece, r.bits32() | 1u);     // only the case-insensitive search sees this one
+        Hs.replace(at, nl, piece);
+        if (!near_miss) { prev = at; have_prev = true; }
+    }
+    k.hay = Hs; k.needle = N;
+    const std::vector<size_t> oc = ref::all_occurrences(k.hay, k.needle, r.flag());
+    const bool any = !oc.empty();
+    const size_t first = any ? oc.front() : (size_t)r.range(0, H), last = any ? oc.back() : (size_t)r.range(0, H);
+    switch (r.idx(8)) {
+    case 0: k.start = 0; break;
+    case 1: k.start = first; break;
+    case 2: k.start = first + 1; break;
+    case 3: k.start = first ? first - 1 : 0; break;
+    case 4: k.start = last; break;
+    case 5: k.start = room; break;
+    case 6: k.start = (size_t)r.range(0, H + 1); break;
+    default: { const size_t t[] = {H - 1, H, H + 1, (size_t)-1}; k.start = t[r.idx(4)]; } break;
+    }
+    switch (r.idx(8)) {
+    case 0: k.limit = (size_t)-1; break;
+    case 1: k.limit = last + nl; break;                                             // the last occurrence just fits
+    case 2: k.limit = last + nl - 1; break;                                         // ... and just does not
+    case 3: k.limit = last + (size_t)r.range(0, nl); break;                         // anywhere inside it
+    case 4: k.limit = last; break;
+    case 5: k.limit = H; break;
+    case 6: k.limit = (size_t)r.range(0, H + 1); break;
+    default: { const size_t t[] = {H - 1, H + 1, 0, first + nl}; k.limit = t[r.idx(4)]; } break;
+    }
+    c.label(big ? "long:haystack-8K..48K" : "long:haystack-41..8K");
+    if (kind == 2) c.label("long:dense-overlapping-occurrences"); else if (kind != 1) c.label("long:partial-match-at-every-period");
+    if (edge_plant) c.label("long:plant-at-block-edge");
+    if (gen::has_nul(k.hay) || gen::has_nul(k.needle)) c.label(k.start > 0 && k.start < H ? "long:NUL-and-start>0" : "long:has-NUL");
 }
 
 size_t pick_position(unsigned sel, unsigned v, size_t size, ll anchor, size_t nlen, bool is_limit) {
